@@ -91,6 +91,15 @@ def judge(c, prop, bads, lines, recs):
         if not what.startswith(prefixes):
             continue
         e = json.loads(lines[b["l"] - 1])
+        if e.get("fn") == "reload":
+            c.violation(what, "%s: closing and reopening the file-backed database (history %s step %s): before {%s} log=%d events; after {%s} log=%d events%s" % (
+                what, e.get("hist"), e.get("step"), brief_state(e["pre"])[:500], len(e["preev"]), brief_state(e["post"])[:500], len(e["postev"]),
+                (" load error: " + e["msg"]) if e.get("err") else ""), {"spec": b, "pre": e["pre"], "post": e["post"]})
+            continue
+        if e.get("fn") == "expire":
+            c.violation(what, "%s: TTL pass (%s); state before: {%s}; state after: {%s}; events: %s" % (
+                what, e.get("via"), brief_state(e["pre"])[:600], brief_state(e["post"])[:600], [(x["op"], x["ns"], show(x["key"])) for x in e["ev"]][:12]), {"event": e, "spec": b})
+            continue
         if e.get("fn") == "clean":
             c.violation(what, "%s: %s removed %d of %d events (ages %s s, minSize=%d maxSize=%d minAge=%ds maxAge=%ds); the property demands %s" % (
                 what, "the engine's commit" if e.get("engine") else "Transaction.Clean", e["dropped"], e["len"], e["ages"], e["minSize"], e["maxSize"],
@@ -111,6 +120,12 @@ def cover(c, lines, nontrivial, stride=3):
         if e.get("fn") == "clean":
             if i % 50 == 0:
                 nontrivial.add(("clean", e["len"], e["dropped"], e["minSize"], e["maxSize"]))
+            continue
+        if e.get("fn") == "reload":
+            nontrivial.add(("reload", min(len(e["pre"]), 3), min(sum(len(n["idx"]) for n in e["pre"].values()), 6), min(len(e["preev"]), 10)))
+            continue
+        if e.get("fn") == "expire":
+            nontrivial.add(("expire", e.get("via"), e["pre"] != e["post"], len(e["ev"]) > 0))
             continue
         if e.get("fn") != "call":
             continue
